@@ -96,7 +96,16 @@ def gen_cont(rng, depth, used, U):
     fields = ["a"] + [f for f in ("b", "c") if rng.random() < 0.7]
     if ck == "NT" and "b" not in fields:
         fields.insert(1, "b")
-    return E("cont", ck=ck, items=[(f, gen_elem(rng, depth, used, U)) for f in fields], star=star)
+    items = [(f, gen_elem(rng, depth, used, U)) for f in fields]
+    pos = False
+    if star:
+        # layouts in front of the `**` that would produce a change of their own if the call were not frozen:
+        # a positional first argument, a keyword that spells out the field's default
+        pos = rng.random() < 0.5
+        if ck in ("DC", "AT") and "b" not in fields and rng.random() < 0.6:
+            d = {"DC": "5", "AT": "7"}[ck]
+            items.insert(1, ("b", E("m", text=d, value=d)))
+    return E("cont", ck=ck, items=items, star=star, pos=pos)
 
 
 def old_text(e):
@@ -117,6 +126,8 @@ def old_text(e):
         return "{" + ", ".join(parts) + "}"
     parts = [f"{f}={old_text(c)}" for f, c in e.items]
     if e.star:
+        if getattr(e, "pos", False):
+            parts[0] = old_text(e.items[0][1])
         parts.append("**{}")
     return e.ck + "(" + ", ".join(parts) + ")"
 
